@@ -265,6 +265,7 @@ class Access:
     required: bool
     where: str
     text: str
+    gated_by: Tuple[Tuple[str, ...], ...] = ()  # sibling keys whose presence this read is conditional on
 
 
 class ReaderAccesses:
@@ -408,7 +409,8 @@ class ReaderAccesses:
         return (base, key) in self._optional_ctx
 
     def _record(self, path, required, node):
-        self.accesses.append(Access(path, required, f"{self.fi.module.relpath}:{getattr(node, 'lineno', 0)}", short(node, 80)))
+        gated = tuple(sorted({b + (k,) for b, k in self._optional_ctx if path[: len(b) + 1] != b + (k,)}))
+        self.accesses.append(Access(path, required, f"{self.fi.module.relpath}:{getattr(node, 'lineno', 0)}", short(node, 80), gated))
 
     def _expr(self, e):
         # comprehension bindings first
@@ -508,11 +510,12 @@ class ReaderAccesses:
             return
         sub = ReaderAccesses(self.repo, target, ps[idx], self.depth + 1)
         opt = self._try_depth > 0
+        outer = tuple(sorted({b + (k,) for b, k in self._optional_ctx if path[: len(b) + 1] != b + (k,)}))
         for a in sub.accesses:
-            self.accesses.append(Access(path + a.path, a.required and not opt, a.where, a.text))
+            self.accesses.append(Access(path + a.path, a.required and not opt, a.where, a.text, outer + tuple(path + g for g in a.gated_by)))
 
 
-def compare(writer: object, accesses: List[Access], allow_unread: Dict[Tuple[str, ...], str], allow_unwritten: Optional[Dict[Tuple[str, ...], str]] = None):
+def compare(writer: object, accesses: List[Access], allow_unread: Dict[Tuple[str, ...], str], allow_unwritten: Optional[Dict[Tuple[str, ...], str]] = None, allow_gated: Optional[Dict[Tuple[str, ...], str]] = None):
     """Rules A, B and C. Returns (problems, checked) where problems are
     (kind, path, detail, where) tuples."""
     allow_unwritten = allow_unwritten or {}
@@ -549,6 +552,36 @@ def compare(writer: object, accesses: List[Access], allow_unread: Dict[Tuple[str
                 ok = False
             shape = sub
         checked.append(("A", a.path, a.required))
+    # Rule D: a key is read only when a *different* key is present, although the writer can emit
+    # the first without the second: that part of the record silently does not come back
+    def cond_of(path):
+        shape = writer
+        cond_any = False
+        for k in path:
+            if k == "*":
+                if isinstance(shape, WList):
+                    shape = shape.elem
+                    continue
+                return None
+            if not isinstance(shape, WDict) or k not in shape.keys:
+                return None
+            c, shape = shape.keys[k]
+            cond_any = cond_any or c
+        return cond_any
+
+    gated_ok = set()
+    gated_bad = {}
+    for a in accesses:
+        for g in a.gated_by:
+            if cond_of(g) and cond_of(a.path) is not None:
+                gated_bad.setdefault(a.path, (g, a))
+    for path, (g, a) in gated_bad.items():
+        if allow_gated and path in allow_gated:
+            continue
+        # harmless if the same key is also read somewhere without that gate
+        if any(b.path == path and g not in b.gated_by for b in accesses):
+            continue
+        problems.append(("D-gated-by-sibling", path, f"key {'/'.join(path)} is read ({a.text}) only when the unrelated key {'/'.join(g)} is present, but the writer emits {'/'.join(g)} only conditionally: a record saved with {'/'.join(path)} and without {'/'.join(g)} loses that part on load", a.where))
     # Rule B: every key the writer can emit is consumed by the reader
     for path, cond in shape_keys(writer):
         if path in read_paths:
